@@ -7,6 +7,10 @@ ROOT = os.path.dirname(os.path.dirname(os.path.abspath(__file__)))
 
 # id -> (technique, level text, level note, design ref)
 CHECKS = {
+ "C20": ("differential between two builds of the crate (default vs no_std) over generated corpora: transcript equality line by line",
+         "Texts, near-valid byte strings, instruction streams and model-defined programs + inputs from the generators of C13/C14/C06/C15/C01 are evaluated by the default build (in-process, executions fork-isolated) and by a second binary linking the crate with default features off (JIT from caller-supplied executable memory); assembler, verifier, disassembler, interpreter and JIT results must be identical. Exploration.",
+         "The no_std build is linked into a std binary; only the kind of an error is compared, never its message.",
+         "DESIGN.md section 3, C20"),
  "C18": ("stress exploration with generated configurations (threads x engines x addends x iteration counts) and an invariant oracle over the final memory state",
          "Up to 16 threads on a mix of interpreter, JIT and Cranelift hammer one naturally aligned word behind a start barrier, 16 such processes at a time; the final value must equal initial + sum(K*addend) mod 2^width and no neighbouring byte may change; misaligned interpreter adds must be refused without touching memory. Real schedules only - this family of technique cannot enumerate interleavings; a non-atomic read-modify-write is nevertheless caught within the first configurations (validated by mutation). Exploration, weakest claim of the set.",
          "Overlap of executions is made likely (barrier, K >= 10,000, oversubscription), not guaranteed; replay re-runs a configuration five times because schedules are not reproducible.",
@@ -121,6 +125,8 @@ def main():
             "add_only": True,
         },
         "engines": [
+            {"name": "vrun-nostd", "path": "/verif/harness-nostd", "serves_properties": ["C20"],
+             "kind_free_text": "second binary linking rbpf with default features off (no_std) + verif-hooks; evaluates corpus lines and prints a transcript"},
             {"name": "vrun", "path": "/verif/harness/vrun", "serves_properties": sorted(CHECKS.keys()),
              "kind_free_text": "Rust binary: proptest-driven generators (seeded from VERIF_SEED, shrinking to replay files), independent reference models, fork-isolated execution of generated code, 16 worker processes; rebuilt from /repo's working tree by ./check"},
         ],
